@@ -2468,6 +2468,11 @@ impl StorageEngine {
                         }
                     }
                     
+                    #[cfg(feature = "verif")]
+                    if !expired_keys.is_empty() {
+                        crate::verif::SWEEPER_HOLD.reach("collected", b"", &|| expired_keys.clone());
+                    }
+                    
                     // Remove expired keys with write lock
                     if !expired_keys.is_empty() {
                         let mut shard_guard = shard.write().unwrap();
@@ -2485,7 +2490,76 @@ impl StorageEngine {
                     }
                 }
             }
+            
+            #[cfg(feature = "verif")]
+            crate::verif::SWEEP_PASSES.fetch_add(1, std::sync::atomic::Ordering::SeqCst);
         }
+    }
+}
+
+#[cfg(feature = "verif")]
+impl StorageEngine {
+    /// Walk every value of every shard (under the shard's own lock) and report
+    /// structural disagreements of sorted sets, streams and consumer groups.
+    pub fn verif_check(&self) -> Vec<String> {
+        let mut out = Vec::new();
+        for (db, database) in self.databases.iter().enumerate() {
+            for shard in &database.shards {
+                let guard = shard.read().unwrap();
+                for (key, stored) in guard.data.iter() {
+                    let mut problems = Vec::new();
+                    match &stored.value {
+                        Value::SortedSet(sl) => {
+                            problems.extend(sl.verif_check_invariants().into_iter().map(|p| format!("skiplist {}", p)));
+                            if sl.len() == 0 {
+                                problems.push("skiplist empty sorted set stored as a key".to_string());
+                            }
+                        }
+                        Value::Stream(st) => problems.extend(st.verif_check_invariants()),
+                        Value::List(l) => if l.is_empty() { problems.push("list empty list stored as a key".to_string()); },
+                        Value::Set(l) => if l.is_empty() { problems.push("set empty set stored as a key".to_string()); },
+                        Value::Hash(l) => if l.is_empty() { problems.push("hash empty hash stored as a key".to_string()); },
+                        Value::String(_) => {}
+                    }
+                    for p in problems {
+                        let hex: String = key.iter().map(|b| format!("{:02x}", b)).collect();
+                        out.push(format!("{} db={} key={}", p, db, hex));
+                    }
+                }
+            }
+        }
+        out
+    }
+    
+    /// Dump the expiry index: (db, key, key present, stored deadline in ms from
+    /// now if any, index deadline in ms from now).
+    pub fn verif_expiry(&self) -> Vec<(usize, Vec<u8>, bool, Option<i64>, i64)> {
+        fn rel(now: Instant, t: Instant) -> i64 {
+            if t >= now { (t - now).as_millis() as i64 } else { -((now - t).as_millis() as i64) }
+        }
+        let mut out = Vec::new();
+        for (db, database) in self.databases.iter().enumerate() {
+            for shard in &database.shards {
+                let guard = shard.read().unwrap();
+                let now = Instant::now();
+                for (key, at) in guard.expiring_keys.iter() {
+                    let (present, stored) = match guard.data.get(key) {
+                        Some(sv) => (true, sv.metadata.expires_at.map(|t| rel(now, t))),
+                        None => (false, None),
+                    };
+                    out.push((db, key.clone(), present, stored, rel(now, *at)));
+                }
+                // Values carrying a deadline that the index does not know about
+                for (key, sv) in guard.data.iter() {
+                    if let Some(t) = sv.metadata.expires_at {
+                        if !guard.expiring_keys.contains_key(key) {
+                            out.push((db, key.clone(), true, Some(rel(now, t)), i64::MAX));
+                        }
+                    }
+                }
+            }
+        }
+        out
     }
 }
 
